@@ -169,7 +169,7 @@ pub fn run(args: &Args, out: &mut Out) {
             4 => Knobs { p_inuse_burst: 200, inuse_burst_max: *rng.pick(&[2u64, 5, 9, 20, 40, 600]), p_send_failed: 10, ..Knobs::default() },
             0 => Knobs::default(),
             1 => Knobs { p_inject_foreign: 100, p_inject_neversent: 100, p_clock_stepped_back: 30, ..Knobs::default() },
-            2 => Knobs { p_send_failed: 60, p_send_inuse: if cfg.proto == Protocol::Tcp { 150 } else { 5 }, ..Knobs::default() },
+            2 => Knobs { p_send_failed: 60, p_send_inuse: if cfg.proto == Protocol::Tcp { 150 } else { 5 }, p_slow_publish: 400, ..Knobs::default() },
             _ => Knobs { p_send_failed: 20, p_send_inuse: if cfg.proto == Protocol::Tcp { 50 } else { 0 }, p_send_fatal: 5, p_recv_fatal: 5,
                          p_inject_foreign: 30, p_inject_neversent: 30, p_ecmp_flip: 50, ..Knobs::default() },
         };
@@ -182,6 +182,37 @@ pub fn run(args: &Args, out: &mut Out) {
         let r = exec(&cfg, Box::new(env), t0, tick);
         let truth: Truth = deliv.borrow().iter().map(|d| d.truth).collect();
         let orc = full_oracle(&cfg, &r, &truth, stable);
+        out.case(&case_line(&cfg, &r, &truth), &r.render(), &orc);
+    }
+    // long runs over a stable path that answers with a delay: many rounds after the target distance is established, across the point
+    // where the sequence numbers start over (initial sequence at the largest accepted value; Dublin over IPv6 starts over every 512)
+    let nlong = if args.tier_thorough { 40 } else { 6 };
+    for i in 0..nlong {
+        let mut cfg = gen_cfg(&mut rng);
+        cfg.first_ttl = 1;
+        cfg.max_ttl = 30;
+        cfg.max_inflight = *rng.pick(&[3u8, 6, 24]);
+        cfg.max_rounds = 100 + rng.below(40) as usize;
+        cfg.initial_sequence = if i % 2 == 0 { 64511 - rng.below(8) as u16 } else { cfg.initial_sequence.min(64000) };
+        if i % 2 == 1 { cfg.proto = Protocol::Udp; cfg.strategy = MultipathStrategy::Dublin; cfg.portdir = PortDirection::new_fixed_src(5000); cfg.target = rand_addr(&mut rng, true); }
+        let ms = 1_000_000u64;
+        cfg.min_ns = 5 * ms;
+        cfg.max_ns = 40 * ms;
+        cfg.grace_ns = 2 * ms;
+        let (mut env, deliv) = gen_env(&mut rng, &cfg, Knobs::default());
+        env.alt_path.clear();
+        env.target_answers = true;
+        env.target_dist = env.target_dist.clamp(3, 8);
+        env.path.truncate(env.target_dist);
+        while env.path.len() < env.target_dist { let h = env.path[0].clone(); env.path.push(h); }
+        for h in &mut env.path { h.silent = false; h.every = 1; h.dup = false; h.delay_ns = 3 * ms; }
+        env.read_timeout_ns = ms;
+        env.iter_budget = 20_000;
+        let t0 = vclock::BASE_NS;
+        vclock::set(t0);
+        let r = exec(&cfg, Box::new(env), t0, 0);
+        let truth: Truth = deliv.borrow().iter().map(|d| d.truth).collect();
+        let orc = full_oracle(&cfg, &r, &truth, true);
         out.case(&case_line(&cfg, &r, &truth), &r.render(), &orc);
     }
 }
